@@ -35,10 +35,10 @@ UNITS = [
                       ("value", "implies(result is not None, result == val(len(args)))")],
              twins=[("never-none", "result is not None")],
              use_as_callee=False),
-    Contract(f"{INL}:_min_or_none", ["C15"], specs=S,
+    Contract(f"{INL}:_min_or_none", ["C15", "C12", "C14"], specs=S,
              ensures=[("value", "result == opt_min(that, other)")],
              twins=[("swapped", "result == opt_max(that, other)")], use_as_callee=False),
-    Contract(f"{INL}:_max_or_none", ["C15"], specs=S,
+    Contract(f"{INL}:_max_or_none", ["C15", "C12", "C14"], specs=S,
              ensures=[("value", "result == opt_max(that, other)")],
              twins=[("swapped", "result == opt_min(that, other)")], use_as_callee=False),
 
@@ -74,7 +74,7 @@ UNITS = [
              use_as_callee=False),
 
     # ---- reduction of a list of constraints to one range
-    Contract(f"{LEN}:_reduce_constraints", ["C15", "C02"], specs=S, ghost={"n": "int"},
+    Contract(f"{LEN}:_reduce_constraints", ["C15", "C02", "C12", "C14"], specs=S, ghost={"n": "int"},
              loops={1: Loop(
                  prefix_folds={"allsat": ("bool", "True", "lambda acc, c: acc and sat(c, n)")},
                  invariants=["implies(len(errors) == 0, allsat(_i) == (admits(min_len, max_len, n)"
@@ -95,7 +95,8 @@ UNITS = [
     # ---- merge of two ranges = intersection; an empty intersection must not crash
     # (a) whenever the two ranges intersect: proved without exception;
     # (b) all inputs: the disjoint case is the recorded finding (known_findings.json), anything else is new.
-    Contract(f"{INL}:_merge_len_constraints", ["C15", "C02"], specs=S, ghost={"n": "int"},
+    # (the tightest merged range is what the schema generators enforce: also part of C12 / C14)
+    Contract(f"{INL}:_merge_len_constraints", ["C15", "C02", "C12", "C14"], specs=S, ghost={"n": "int"},
              name="merge_len[ranges intersect]",
              args={"that": lambda it, fr: mk_len_constraint(it, "that"),
                    "other": lambda it, fr: mk_len_constraint(it, "other")},
